@@ -543,13 +543,22 @@ func runC20(c *Ctx, r *Report) {
 		return
 	}
 	// data argument: append(A, B...) with identifiers A, B
+	// (the two named values are places: a local, or a field of a local result struct; a single-definition
+	// temporary holding the concatenation stands for it)
 	var aObj, bObj types.Object
-	if app, ok := ast.Unparen(signCall.Args[1]).(*ast.CallExpr); ok && p.Builtin(ci, app) == "append" && len(app.Args) == 2 && app.Ellipsis.IsValid() {
-		if id, ok := ast.Unparen(app.Args[0]).(*ast.Ident); ok {
-			aObj = p.ObjOf(ci, id)
+	aKey, bKey := "", ""
+	dataArg := ast.Unparen(signCall.Args[1])
+	if id, ok := dataArg.(*ast.Ident); ok {
+		if d := p.SoleDef(ci, p.ObjOf(ci, id)); d != nil {
+			dataArg = ast.Unparen(d)
 		}
-		if id, ok := ast.Unparen(app.Args[1]).(*ast.Ident); ok {
-			bObj = p.ObjOf(ci, id)
+	}
+	if app, ok := dataArg.(*ast.CallExpr); ok && p.Builtin(ci, app) == "append" && len(app.Args) == 2 && app.Ellipsis.IsValid() {
+		if root, k, ok := p.PathKey(ci, app.Args[0]); ok {
+			aObj, aKey = root, k
+		}
+		if root, k, ok := p.PathKey(ci, app.Args[1]); ok {
+			bObj, bKey = root, k
 		}
 	}
 	if aObj == nil || bObj == nil {
@@ -582,7 +591,8 @@ func runC20(c *Ctx, r *Report) {
 				return true
 			}
 			found = true
-			var pk, sid, spk types.Object
+			var spk types.Object
+			pkKey, sidKey := "", ""
 			for _, el := range cl.Elts {
 				kv, ok := el.(*ast.KeyValueExpr)
 				if !ok {
@@ -591,22 +601,29 @@ func runC20(c *Ctx, r *Report) {
 				kn := kv.Key.(*ast.Ident).Name
 				val := ast.Unparen(kv.Value)
 				if kn == "PublicKey" {
-					if id, ok := val.(*ast.Ident); ok {
-						pk = p.ObjOf(ci, id)
+					if _, k, ok := p.PathKey(ci, val); ok {
+						pkKey = k
 					}
 				}
 				if kn == "Signatures" {
+					if id, ok := val.(*ast.Ident); ok {
+						if d := p.SoleDef(ci, p.ObjOf(ci, id)); d != nil {
+							val = ast.Unparen(d)
+						}
+					}
 					if u, ok := val.(*ast.UnaryExpr); ok && u.Op == token.AND {
 						val = u.X
 					}
 					if inner, ok := val.(*ast.CompositeLit); ok {
 						for _, e2 := range inner.Elts {
 							if kv2, ok := e2.(*ast.KeyValueExpr); ok {
-								if id, ok := ast.Unparen(kv2.Value).(*ast.Ident); ok {
-									switch kv2.Key.(*ast.Ident).Name {
-									case "ID":
-										sid = p.ObjOf(ci, id)
-									case "PublicKey":
+								switch kv2.Key.(*ast.Ident).Name {
+								case "ID":
+									if _, k, ok := p.PathKey(ci, kv2.Value); ok {
+										sidKey = k
+									}
+								case "PublicKey":
+									if id, ok := ast.Unparen(kv2.Value).(*ast.Ident); ok {
 										spk = p.ObjOf(ci, id)
 									}
 								}
@@ -615,10 +632,10 @@ func runC20(c *Ctx, r *Report) {
 					}
 				}
 			}
-			ok2 := before["signed"] && pk == aObj && sid == bObj && spk == sigObj && sigObj != nil
+			ok2 := before["signed"] && pkKey == aKey && sidKey == bKey && aKey != "" && bKey != "" && spk == sigObj && sigObj != nil
 			r.Check(ok2, "R-C20.4", key, cl.Pos(),
 				"the identity publishes exactly the public key and id signature that were signed, and the signature SignIdentity returned",
-				fmt.Sprintf("published identity and signed bytes disagree: signed-before-publish=%v publicKey-matches=%v idSignature-matches=%v pubKeySignature-is-result=%v — the public-key signature then does not verify", before["signed"], pk == aObj, sid == bObj, spk == sigObj))
+				fmt.Sprintf("published identity and signed bytes disagree: signed-before-publish=%v publicKey-matches=%v idSignature-matches=%v pubKeySignature-is-result=%v — the public-key signature then does not verify", before["signed"], pkKey == aKey, sidKey == bKey, spk == sigObj))
 			return true
 		})
 	})
